@@ -4,6 +4,7 @@ pub mod fmt;
 pub mod names;
 pub mod flwgen;
 pub mod spec;
+pub mod stdout;
 
 use crate::util::tokens;
 use crate::Ctx;
@@ -21,6 +22,7 @@ pub fn generate(prop: &str, tier: &str, seed: u64) -> Vec<Vec<String>> {
         "C20" => fmt::gen_c20(tier, seed),
         "C14n" => names::gen_names_cases("C14", tier, seed),
         "C16n" => names::gen_names_cases("C16", tier, seed),
+        "C04" => { let mut v = flwgen::gen_c04(tier, seed); v.extend(stdout::gen_std("C04", tier, seed)); v }
         "C06" => flwgen::gen_c06(tier, seed),
         "C07" => flwgen::gen_c07(tier, seed),
         "C08" => flwgen::gen_c08(tier, seed),
@@ -55,6 +57,7 @@ pub fn execute(ctx: &mut Ctx, lines: &[String]) -> Vec<(Vec<String>, Vec<String>
         "conc" => conc::execute(ctx, lines),
         "fmt" => vec![(lines.to_vec(), fmt::execute(ctx, lines))],
         "names" => vec![(lines.to_vec(), names::execute(ctx, lines))],
+        "std" => vec![(lines.to_vec(), stdout::execute(ctx, lines))],
         m => panic!("unknown model {m}"),
     }
 }
@@ -62,6 +65,7 @@ pub fn execute(ctx: &mut Ctx, lines: &[String]) -> Vec<(Vec<String>, Vec<String>
 pub fn child_main(args: &[String]) {
     match args.first().map(String::as_str) {
         Some("dup") => spec::child_dup(&args[1..]),
+        Some("std") => stdout::child_std(&args[1..]),
         _ => {
             eprintln!("unknown child mode");
             std::process::exit(2);
